@@ -96,6 +96,10 @@ theorem binary_ratio (eps : ℝ) (heps : 0 ≤ eps) (ind ind' o : Bool) :
 
 /-! ### Exponential mechanism on the model's weight lists -/
 
+theorem length_ne_nil {us us' : List ℝ} (hlen : us.length = us'.length) (hne : us ≠ []) : us' ≠ [] := by
+  intro h; apply hne; apply List.eq_nil_of_length_eq_zero; rw [hlen, h]; rfl
+
+
 theorem zipMul_eq (w m : List ℝ) : zipMul w m = List.zipWith (· * ·) w m := by
   induction w generalizing m with
   | nil => cases m <;> simp [zipMul]
